@@ -237,13 +237,14 @@ def run(facts, tr, rep):
     rep.ob("C14.FACTOR", "tower_resilience_retry|randomization_factor-writers", not ws, "-",
            "randomization_factor is never assigned after construction" if not ws else "randomization_factor assigned in %s" % [w[0].def_ for w in ws])
     # ------------------------------------------------------------ ATTEMPT origin in reconnect
+    from .c16 import _discover_counter, reconnect_view
+    facts, tr = reconnect_view(facts)          # the reconnect future with its private bookkeeping helpers inlined (as in C16)
     for d in dfa:
         for cs in tr.callers(d.def_):
             b = cs.g.b
             if not b.crate.name.startswith("tower_resilience_reconnect"):
                 continue
             rep.saw(b)
-            from .c16 import _discover_counter
             polls = [x for x in facts.crates[b.crate.name].bodies if x.name == "poll" and x.impl and x.impl.get("trait") == "core::future::future::Future"]
             cnts = {_discover_counter(tr, x) for x in polls} - {None}
             a = peel(tr.expand(tr.operand(b, cs.args[1], cs.loc), upvars=True, params=True))
